@@ -14,6 +14,7 @@ import (
 	"github.com/linxGnu/grocksdb"
 	"pgregory.net/rapid"
 
+	"verif/harness/internal/gen"
 	"verif/harness/internal/refmpt"
 )
 
@@ -101,37 +102,37 @@ var pathBytes = []string{"00", "01", "0a", "10", "11", "1f", "a0", "a1", "af", "
 // About 40% of the draws truncate or extend (by whole bytes) a path already in
 // used, about 8% are the empty path.
 func GenPath(rt *rapid.T, used []string, maxBytes int, label string) string {
-	k := rapid.IntRange(0, 99).Draw(rt, label+"_k")
+	k := gen.Pct(rt, label+"_k")
 	switch {
 	case k < 8:
 		return ""
 	case k < 48 && len(used) > 0:
-		base := rapid.SampledFrom(used).Draw(rt, label+"_base")
-		switch rapid.IntRange(0, 3).Draw(rt, label+"_m") {
+		base := gen.Pick(rt, used, label+"_base")
+		switch gen.Uniform(rt, 0, 3, label+"_m") {
 		case 0: // the same path again
 			return base
 		case 1: // truncate
 			if len(base) >= 2 {
-				n := rapid.IntRange(0, len(base)/2-1).Draw(rt, label+"_t")
+				n := gen.Uniform(rt, 0, len(base)/2-1, label+"_t")
 				return base[:2*n]
 			}
 			return base
 		case 2: // extend
 			if len(base)/2 < maxBytes {
-				return base + rapid.SampledFrom(pathBytes).Draw(rt, label+"_e")
+				return base + gen.Pick(rt, pathBytes, label+"_e")
 			}
 			return base
 		default: // sibling: change the last byte
 			if len(base) >= 2 {
-				return base[:len(base)-2] + rapid.SampledFrom(pathBytes).Draw(rt, label+"_s")
+				return base[:len(base)-2] + gen.Pick(rt, pathBytes, label+"_s")
 			}
 			return base
 		}
 	}
-	n := rapid.IntRange(1, maxBytes).Draw(rt, label+"_n")
+	n := gen.Uniform(rt, 1, maxBytes, label+"_n")
 	p := ""
 	for i := 0; i < n; i++ {
-		p += rapid.SampledFrom(pathBytes).Draw(rt, label+"_b")
+		p += gen.Pick(rt, pathBytes, label+"_b")
 	}
 	return p
 }
@@ -140,7 +141,7 @@ func GenPath(rt *rapid.T, used []string, maxBytes int, label string) string {
 func GenFixedPath(rt *rapid.T, nBytes int, label string) string {
 	p := ""
 	for i := 0; i < nBytes; i++ {
-		p += rapid.SampledFrom(pathBytes).Draw(rt, label+"_b")
+		p += gen.Pick(rt, pathBytes, label+"_b")
 	}
 	return p
 }
@@ -152,10 +153,10 @@ func GenValue(rt *rapid.T, label string) []byte {
 	n := rapid.IntRange(1, 12).Draw(rt, label+"_n")
 	v := make([]byte, n)
 	for i := range v {
-		if rapid.IntRange(0, 2).Draw(rt, label+"_s") == 0 {
+		if gen.Chance(rt, 33, label+"_s") {
 			v[i] = rapid.Byte().Draw(rt, label+"_r")
 		} else {
-			v[i] = rapid.SampledFrom(valueBytes).Draw(rt, label+"_p")
+			v[i] = gen.Pick(rt, valueBytes, label+"_p")
 		}
 	}
 	return v
@@ -245,4 +246,72 @@ func Show(m map[string][]byte) string {
 		s += fmt.Sprintf("%q:%x", k, m[k])
 	}
 	return s + "}"
+}
+
+// Op is one generated trie operation.
+type Op struct {
+	Kind string `json:"k"` // ins | del
+	Path string `json:"p"`
+	Val  string `json:"v,omitempty"` // hex
+}
+
+func (o Op) String() string {
+	if o.Kind == "ins" {
+		return fmt.Sprintf("ins(%q,%s)", o.Path, o.Val)
+	}
+	return fmt.Sprintf("%s(%q)", o.Kind, o.Path)
+}
+
+// GenOps draws n operations that are valid against model (deletes only of live
+// keys, ~35% deletes when keys exist, with a bias to re-insert deleted keys)
+// and applies them to model. used collects every path drawn.
+func GenOps(rt *rapid.T, model map[string][]byte, used *[]string, n, maxBytes int, label string) []Op {
+	return GenOpsP(rt, model, used, n, maxBytes, 35, label)
+}
+
+// GenOpsP is GenOps with the delete percentage given.
+func GenOpsP(rt *rapid.T, model map[string][]byte, used *[]string, n, maxBytes, delPct int, label string) []Op {
+	var ops []Op
+	for i := 0; i < n; i++ {
+		live := SortedKeys(model)
+		if len(live) > 0 && gen.Chance(rt, delPct, label+"_d") {
+			p := gen.Pick(rt, live, label+"_dk")
+			ops = append(ops, Op{Kind: "del", Path: p})
+			delete(model, p)
+			continue
+		}
+		p := GenPath(rt, *used, maxBytes, label+"_p")
+		v := GenValue(rt, label+"_v")
+		ops = append(ops, Op{Kind: "ins", Path: p, Val: fmt.Sprintf("%x", v)})
+		model[p] = v
+		*used = append(*used, p)
+	}
+	return ops
+}
+
+// Apply runs ops on a trie; any error is returned with the failing op.
+func Apply(mpt util.MerklePatriciaTrieI, ops []Op) error {
+	for i, o := range ops {
+		var err error
+		if o.Kind == "ins" {
+			var v []byte
+			fmt.Sscanf(o.Val, "%x", &v)
+			_, err = mpt.Insert(util.Path(o.Path), Val(v))
+		} else {
+			_, err = mpt.Delete(util.Path(o.Path))
+		}
+		if err != nil {
+			return fmt.Errorf("op %d %v: %w", i, o, err)
+		}
+	}
+	return nil
+}
+
+// CopyContent clones a content map.
+func CopyContent(m map[string][]byte) map[string][]byte {
+	out := make(map[string][]byte, len(m))
+	for k, v := range m {
+		out[k] = v
+	}
+	return out
 }
